@@ -60,7 +60,10 @@ type filterSpec struct {
 type caseSpec struct {
 	Graph    []dag.Encoded `json:"graph"`
 	Src      string        `json:"src"`   // mem | oci | ocireopen | file | remote-api | remote-tags
-	Page     int           `json:"page"`  // remote-api: referrers page size (0 = one page)
+	Page     int           `json:"page"`  // remote-api: the registry's cap on a referrers page (0 = none)
+	ClientN  int           `json:"clientN"` // remote: Repository.ReferrerListPageSize (0 = not set)
+	Split    bool          `json:"split"` // remote-api: the registry serves pages shorter than cap / n, Link while items remain
+	ServerFilter bool      `json:"serverFilter"` // remote-api: the registry applies (and announces) the artifactType parameter
 	Style    []int         `json:"style"` // per node: 0 plain, 1 manifest fields, 2 effective type + non-nil annotations
 	Start    int           `json:"start"`
 	Limit    int           `json:"limit"`
@@ -312,6 +315,7 @@ func buildSource(g *dag.Graph, spec *caseSpec) (*built, error) {
 			return nil, err
 		}
 		repo.PlainHTTP = true
+		repo.ReferrerListPageSize = spec.ClientN
 		return &built{store: repo, cleanup: f.srv.Close}, nil
 	case "mem":
 		m := memory.New()
@@ -627,9 +631,27 @@ func runCase(spec *caseSpec) {
 		}
 		sort.Ints(got)
 		if rec.bad == "" && idsString(got) != idsString(truePreds(g, n.ID)) {
+			// What the source serves is not the generator's inverse edge list.  The case goes
+			// on (the model gets the served table; the oracle keeps the generator's truth), and
+			// a predecessor that is not served is reported directly: ExtendedCopy from this
+			// node cannot reach its graph.
 			run.Count("source-preds-differ")
-				fmt.Fprintf(os.Stderr, "source %s: Predecessors(%d)=%v generator %v\n", spec.Src, n.ID, got, truePreds(g, n.ID))
-			return
+			have := map[int]bool{}
+			for _, p := range got {
+				have[p] = true
+			}
+			for _, p := range truePreds(g, n.ID) {
+				if !have[p] {
+					s2 := *spec
+					s2.Start = n.ID
+					s2.Limit = 0
+					s2.Filters = nil
+					fail2 := fmt.Sprintf("source %s (clientN %d, cap %d): Predecessors(%d) = %v, the nodes that link to it are %v",
+						spec.Src, spec.ClientN, spec.Page, n.ID, got, truePreds(g, n.ID))
+					run.OracleFail(id, "predecessors-missing", fail2, &s2)
+					break
+				}
+			}
 		}
 	}
 	if rec.bad != "" {
@@ -742,6 +764,47 @@ func runCase(spec *caseSpec) {
 			if idsString(got) != idsString(want) {
 				run.OracleFail(fid, "filter-exact", fmt.Sprintf("node %d: followed predecessors %v, those whose manifest satisfies the filter are %v (source %s)",
 					n.ID, got, want, spec.Src), spec)
+			}
+		}
+	}
+
+	// ---- a remote source asked for one artifact type (what a ReferrerLister offers): the
+	// registry may or may not filter itself; either way exactly the referrers of that type come back
+	if remoteTruth {
+		if rl, ok := b.store.(registry.ReferrerLister); ok {
+			for _, n := range g.Nodes {
+				tp := truePreds(g, n.ID)
+				if n.Foreign() || len(tp) == 0 {
+					continue
+				}
+				types := []string{effType(g, g.Nodes[tp[0]]), "sbom", "application/vnd.verif.sbom"}
+				for _, at := range types {
+					if at == "" {
+						continue
+					}
+					var got []int
+					err := rl.Referrers(ctx, n.Desc, at, func(rs []ocispec.Descriptor) error {
+						for _, d := range rs {
+							got = append(got, rec.byKey[keyOf(d)])
+						}
+						return nil
+					})
+					var want []int
+					for _, p := range tp {
+						if effType(g, g.Nodes[p]) == at {
+							want = append(want, p)
+						}
+					}
+					sort.Ints(got)
+					run.Count("referrers-by-type")
+					if err != nil {
+						fail("unexpected-error", fmt.Sprintf("Referrers(%d, %q): %v", n.ID, at, err))
+					} else if idsString(got) != idsString(want) {
+						fail("referrers-by-type", fmt.Sprintf("source %s (server filters: %v, clientN %d, cap %d): Referrers(%d, %q) = %v, referrers of that artifact type are %v",
+							spec.Src, spec.ServerFilter, spec.ClientN, spec.Page, n.ID, at, got, want))
+					}
+				}
+				break // one subject per case
 			}
 		}
 	}
@@ -954,7 +1017,9 @@ func wrapperCase(resolves, graphOK, tagOK bool, srcRef, dstRef string) {
 // ---------------------------------------------------------------- generator
 
 var atRegexes = []string{"sbom", "sig$", `^application/vnd\.verif\.(sbom|doc)$`, "config", "verif", "^$", "layer", "idx", "",
-	`^application/vnd\.oci\.image\.config\.v1\+json$`, "other|sig"}
+	`^application/vnd\.oci\.image\.config\.v1\+json$`, "other|sig",
+	// literal, unanchored: substring matches (never an exact-match artifactType parameter)
+	"vnd.verif.s", "application/vnd.verif.sbo", "sig", "application/vnd.verif.sbom", "doc"}
 var annRegexes = []string{"alpha", "^(beta|gamma)$", "a$", "^$", ""}
 var annKeys = []string{"verif.key", "verif.key", "verif.key", "missing.key"}
 
@@ -1000,7 +1065,11 @@ func randomGraph(r *common.Rand) *dag.Graph {
 func randomSpec(r *common.Rand, g *dag.Graph) *caseSpec {
 	spec := &caseSpec{Graph: g.Encode()}
 	spec.Src = common.Pick(r, []string{"mem", "oci", "ocireopen", "ocireopen", "file", "remote-api", "remote-tags"})
-	spec.Page = common.Pick(r, []int{0, 0, 1, 2})
+	spec.Page = common.Pick(r, []int{0, 1, 2, 2, 3})
+	// client page size independent of the registry's cap: unset, smaller, equal, larger
+	spec.ClientN = common.Pick(r, []int{0, 0, 1, 2, 3, 10, 100})
+	spec.Split = r.Chance(1, 3)
+	spec.ServerFilter = r.Bool()
 	mode := r.Intn(4) // 0: all plain, 1: all style 1, 2: all style 2, 3: mixed
 	for range g.Nodes {
 		switch mode {
